@@ -13,6 +13,17 @@ stay <= w_max is a satisfying assignment with objective sum slack_i), kmpec_deco
 kmpec_opt_within_caps (the total slack of an LP optimum is minimal among all such bounded families) and
 kmpec_wmax_cuts_optimum (Lean counterpart of finding C08-mpecycles-wmax-cuts-optimum: on s -> a <-> b the LP optimum is 2
 while a route within w_max and the repetition caps admits slack 1 — its product 8 exceeds w_max = 4).
+Given-weights branch (solution_weights_superset; LP generator `kmpeGivenLP`, same file, proofs FP/Proofs/KMPEGiven*.lean):
+kmpe_given_sound (no factors: every satisfying assignment decodes to a choice of <= original_k of the given weights by
+index on routes of the user's graph with slacks in [0, w_max] of the requested type, gamma = x*slack, the slack inequality
+with the given numbers as weights on every non-ignored edge, objective = sum of slacks), kmpe_given_factors_sound (with
+path_length_factors: scaled_slack_i = slack_i * factors[j] for a range j containing the path length, gamma = x*scaled_slack
+<= w_max, rows 9aa/9ab hold with the length-scaled slacks, cap row, objective = sum of unscaled slacks),
+kmpe_given_complete / kmpe_given_opt_transfer (no factors: every such choice with slacks <= w_max = max(len(ws)*max f,
+max ws) is a satisfying assignment with objective sum slack_i; the total slack of an LP optimum is minimal among them) and
+kmpe_given_wmax_cuts_optimum (Lean counterpart of finding C08-given-weights-wmax-cuts-optimum: s0->u, s1->u, u->v, v->t1,
+v->x, s2->x, x->y, f = 1 except f(u,v) = f(x,y) = 0, given [15,15,15], k=3: LP optimum 45 while slacks 14,16,14 on the same
+routes are valid — 16 exceeds w_max = 15).
 Tie: K2 LP-dump equality of kMinPathError (plain, given weights, path-length factors) against kmpeLP / kmpeGivenLP; K1
 evaluation of the spec vocabulary (driver op check.kmpe) on returned solutions; K5 end-to-end oracle: brute-force cover
 number, feasibility for k >= cover number and k=None, slack inequality, objective, is_valid_solution, brute-force optimum
@@ -31,6 +42,9 @@ THEOREMS = ["FP.Props.C08.kmpe_sound", "FP.Props.C08.kmpe_routes_valid", "FP.Pro
             "FP.Props.C08.kmpec_sound", "FP.Props.C08.kmpec_objective", "FP.Props.C08.kmpec_mult_bits",
             "FP.Props.C08.kmpec_complete_within_caps", "FP.Props.C08.kmpec_decoded_within_caps",
             "FP.Props.C08.kmpec_opt_within_caps", "FP.Props.C08.kmpec_wmax_cuts_optimum",
+            "FP.Props.C08.kmpe_given_sound", "FP.Props.C08.kmpe_given_factors_sound",
+            "FP.Props.C08.kmpe_given_complete", "FP.Props.C08.kmpe_given_opt_transfer",
+            "FP.Props.C08.kmpe_given_wmax_cuts_optimum",
             "FP.Props.C07.wmax_adequate", "FP.Props.C07.klaec_cap", "FP.Props.C01.pathcore_sound",
             "FP.Props.C01.walkcore_sound", "FP.Props.C01.walk_routes_valid", "FP.Props.C12.binProd_exact",
             "FP.Props.C04.intProdQ_sound"]
@@ -39,7 +53,7 @@ K2_ADAPTERS = ["kmpe", "kmpec"]
 RULE = ("K2: random kMinPathError configurations (as for C07, plus path_length_ranges/factors and k=None). K5: random "
         "instances with arbitrary non-negative integer values <= 4, DAG <= 6 edges / cyclic <= 5 edges; for each instance "
         "the brute-force cover number c of the non-ignored edges (cyclic: walks using an edge at most twice) and runs with "
-        "k = c, c+1, k=None, given weights, and (DAG, int) a single path-length factor in {1/4,1/2,1,3/2,2,3,4} on an "
+        "k = c, c+1, k=None, given weights (drawn from the flow values, now and then also above the largest one), and (DAG, int) a single path-length factor in {1/4,1/2,1,3/2,2,3,4} on an "
         "unambiguous range; error_scaling in {0,1/4,1/2,1}, ignore sets, additional starts/ends, both weight types. "
         "The oracle recomputes the slack inequality with Fractions and, for int weights, the least total slack over all "
         "k-multisets of routes, integer weights 0..max f and integer slacks. Non-trivial: solved instance with positive "
@@ -47,7 +61,14 @@ RULE = ("K2: random kMinPathError configurations (as for C07, plus path_length_r
 MODEL_SCOPE = ("modelled and proven: DAG MILP route of kMinPathError — soundness with and without path-length factors, "
                "completeness / feasibility / optimality without factors, subpath constraints and length attribute; with "
                "factors the intended completeness statement is refuted in Lean on a concrete witness (factors_gt1_infeasible) "
-               "and on the real code (findings C08-factors-*); given-weights LP modelled (K2) but not proven; cyclic class "
+               "and on the real code (findings C08-factors-*); given-weights branch (kmpeGivenLP, tied by K2): soundness for "
+               "every configuration without (kmpe_given_sound) and with path-length factors (kmpe_given_factors_sound: rows "
+               "9aa/9ab see the length-scaled slack); completeness and minimality of the total slack without factors / subpath "
+               "constraints / length attribute, scales >= 0, among the choices of <= original_k given weights (by index) "
+               "whose slacks stay <= w_max = max(len(superset)*max f, max superset) (kmpe_given_complete, "
+               "kmpe_given_opt_transfer) — unrestricted minimality is false for the code when the given numbers exceed the "
+               "flow values (kmpe_given_wmax_cuts_optimum, finding C08-given-weights-wmax-cuts-optimum); completeness with "
+               "factors is not claimed (it is already false without given weights); cyclic class "
                "kMinPathErrorCycles (edge mode, elements_to_ignore_percentile = None, no path-length factors, safety "
                "optimisations off; LP generator kmpecLP tied by K2): soundness for every configuration incl. subset "
                "constraints and empty walks (kmpec_sound); completeness and minimality of the total slack only for families "
@@ -200,6 +221,16 @@ def mpe_case(ctx, inst, ug=None, cover=None, suite="K5.mpe", brute=True):
                 if capped is None or capped >= total:
                     what += (f" — explained by the column bound w_max = k*max f = {show(wmax)}: every better choice needs "
                              f"weight x multiplicity (pi) or slack x multiplicity (gamma) above w_max")
+            elif given is not None and phi == 1:
+                # diagnosis: is the gap explained by the bound of the slack columns,
+                # w_max = max(len(superset) * int(max f), max(superset)) ?  (kmpe_given_opt_transfer: the LP optimum is minimal
+                # among the choices whose slacks stay <= w_max)
+                W = [frac(x) for x in given]
+                wmax = max(len(W) * Fraction(int(ug.maxf)), max(W + [Fraction(0)]))
+                capped = errors.mpe_optimum(ug, None, phi, given=given, k_user=inst["k"], cap=wmax)
+                if capped is not None and capped == total:
+                    what += (f" — explained by the column bound w_max = max(len(superset)*max f, max(superset)) = {show(wmax)} "
+                             f"of the slack columns: every better choice needs a slack above w_max")
             ctx.violation(what, dict(view, brute_force_optimum=qstr(opt)), site=f"{cls}.optimality")
         elif total < opt and not cyc:
             ctx.violation(f"{cls}: returned total slack {show(total)} is below the least total slack {show(opt)} of all admissible "
@@ -239,6 +270,9 @@ def variants(rng, inst, cover):
     if not cyc and rng.random() < 0.3:
         vals = sorted({frac(x[2]) for x in inst["flow"]} | {Fraction(1)})
         vals = [v for v in vals if v > 0]
+        if rng.random() < 0.3:       # given numbers above the largest flow value (a slack above the bound w_max may be needed)
+            top = max(vals)
+            vals = vals + [top + 1, top + 2, 2 * top]
         ws = [rng.choice(vals) for _ in range(rng.randint(cover, cover + 1))]
         out.append(dict(inst, given_weights=[qstr(v) for v in ws], k=rng.randint(cover, len(ws))))
         if inst["weight_type"] == "int" and rng.random() < 0.6:
